@@ -23,8 +23,8 @@ const (
 
 // Obligation is one decided (or undecided) proof obligation, keyed by rule/construct.
 type Obligation struct {
-	Key    string `json:"key"`    // rule/construct, never a line number
-	Rule   string `json:"rule"`   // rule identifier (e.g. C03-1)
+	Key    string `json:"key"`  // rule/construct, never a line number
+	Rule   string `json:"rule"` // rule identifier (e.g. C03-1)
 	Status Status `json:"status"`
 	Pos    string `json:"pos,omitempty"` // file:line of the construct (diagnostic only)
 	Detail string `json:"detail,omitempty"`
@@ -197,6 +197,13 @@ func (r *Report) Finish() int {
 		if k.Kind == "finding" && k.Property == r.Property && k.Key != "" {
 			suppressed[k.Key] = k
 		}
+	}
+	if f := os.Getenv("VERIF_DUMP_KEYS"); f != "" { // development aid: list every obligation
+		var sb strings.Builder
+		for _, o := range r.Obligations {
+			fmt.Fprintf(&sb, "%s\t%s\t%s\t%s\n", o.Key, o.Status, o.Config, o.Pos)
+		}
+		_ = os.WriteFile(f, []byte(sb.String()), 0o644)
 	}
 	evDir := filepath.Join(VerifDir(), "evidence")
 	_ = os.MkdirAll(filepath.Join(evDir, "replay"), 0o755)
